@@ -9,15 +9,25 @@ pub(crate) struct Desc {
     pub kind: u8, // 0 terminal, 1 chance, 2 player
     pub n: usize, // number of children actually listed (0..=2)
     pub kids: [usize; 2],
-    pub two: bool,          // player two?
-    pub info: u8,           // player infoset label
-    pub cinfo: Option<u8>,  // chance infoset label
-    pub acts: [u8; 2],      // action labels
-    pub w: [f64; 2],        // chance weights
+    pub two: bool,         // player two?
+    pub info: u8,          // player infoset label
+    pub cinfo: Option<u8>, // chance infoset label
+    pub acts: [u8; 2],     // action labels
+    pub w: [f64; 2],       // chance weights
     pub pay: f64,
 }
 
-pub(crate) const TERM: Desc = Desc { kind: 0, n: 0, kids: [0, 0], two: false, info: 0, cinfo: None, acts: [0, 1], w: [1.0, 1.0], pay: 1.0 };
+pub(crate) const TERM: Desc = Desc {
+    kind: 0,
+    n: 0,
+    kids: [0, 0],
+    two: false,
+    info: 0,
+    cinfo: None,
+    acts: [0, 1],
+    w: [1.0, 1.0],
+    pay: 1.0,
+};
 
 #[derive(Clone, Copy)]
 pub(crate) struct A<'a>(pub &'a [Desc], pub usize);
@@ -70,7 +80,15 @@ impl<'a> IntoGameNode for A<'a> {
         match d.kind {
             0 => GameNode::Terminal(d.pay),
             1 => GameNode::Chance(d.cinfo, Outs { a: self, i: 0 }),
-            _ => GameNode::Player(if d.two { PlayerNum::Two } else { PlayerNum::One }, d.info, Acts { a: self, i: 0 }),
+            _ => GameNode::Player(
+                if d.two {
+                    PlayerNum::Two
+                } else {
+                    PlayerNum::One
+                },
+                d.info,
+                Acts { a: self, i: 0 },
+            ),
         }
     }
 }
@@ -123,7 +141,17 @@ fn c11_per_node_rules() {
     let w = [any_weight(), any_weight()];
     let acts = [label3(), label3()];
     let arena = [
-        Desc { kind: if chance { 1 } else { 2 }, n, kids: [1, 2], two: kani::any(), info: 5, cinfo: if kani::any() { Some(3) } else { None }, acts, w, pay: 0.0 },
+        Desc {
+            kind: if chance { 1 } else { 2 },
+            n,
+            kids: [1, 2],
+            two: kani::any(),
+            info: 5,
+            cinfo: if kani::any() { Some(3) } else { None },
+            acts,
+            w,
+            pay: 0.0,
+        },
         TERM,
         TERM,
     ];
@@ -148,20 +176,36 @@ fn c11_per_node_rules() {
         }
     }
     let any = violated[0] || violated[1] || violated[3] || violated[5];
-    kani::cover!(chance && n == 1 && !any, "single-outcome chance node (collapsed)");
+    kani::cover!(
+        chance && n == 1 && !any,
+        "single-outcome chance node (collapsed)"
+    );
     kani::cover!(!chance && n == 1, "single-action decision node (collapsed)");
     kani::cover!(chance && n == 2 && violated[1], "bad weight");
     match &r {
         Ok(g) => {
-            assert!(!any, "C11 accept: constructor accepted a tree that violates the documented contract");
+            assert!(
+                !any,
+                "C11 accept: constructor accepted a tree that violates the documented contract"
+            );
             if n == 2 {
                 let multi = g.player_infosets[0].len() + g.player_infosets[1].len();
-                assert!((multi == 1) == !chance && g.chance_infosets.len() == if chance { 1 } else { 0 }, "C11 tables: infoset tables do not describe the tree");
+                assert!(
+                    (multi == 1) == !chance
+                        && g.chance_infosets.len() == if chance { 1 } else { 0 },
+                    "C11 tables: infoset tables do not describe the tree"
+                );
             }
         }
         Err(e) => {
-            assert!(any, "C11 reject: constructor rejected a tree that satisfies the documented contract");
-            assert!(kind_of(e) <= 6 && violated[kind_of(e) as usize], "C11 error-kind: the error does not name a rule the tree violates");
+            assert!(
+                any,
+                "C11 reject: constructor rejected a tree that satisfies the documented contract"
+            );
+            assert!(
+                kind_of(e) <= 6 && violated[kind_of(e) as usize],
+                "C11 error-kind: the error does not name a rule the tree violates"
+            );
         }
     }
     core::mem::forget(r);
